@@ -108,6 +108,32 @@ theorem accessors_agree (tr : Traj) (hw : tr.wf) (k s c : Nat) (hk : k < tr.nsam
   · rw [hrow c hc, List.getElem?_eq_getElem hidx]
   · rw [hcol k hk, List.getElem?_eq_getElem hidx]
 
+/-- edit-then-reread: after the data array has been replaced (whatever was read before), the four ways of reading
+(species, sample, cell) give the entry of the NEW array; nothing of the old content is remembered -/
+theorem edited_data_is_read (tr : Traj) (d : List Rat) (hw : (tr.setData d).wf) (k s c : Nat)
+    (hk : k < tr.nsamples) (hs : s < tr.ns) (hc : c < tr.nc) :
+    ∃ v row col, d[k * (tr.ns * tr.nc) + s * tr.nc + c]? = some v ∧ (tr.setData d).point s k c = .ok v ∧
+      (tr.setData d).state s k = .ok row ∧ row[c]? = some v ∧ (tr.setData d).cellTrajectory s c = .ok col ∧ col[k]? = some v :=
+  accessors_agree (tr.setData d) hw k s c hk hs hc
+
+/-- a history of edits is the trajectory with the last content of each array: shape and time units never change, and the
+accessors are functions of the current `Traj` value only (so of nothing that was read earlier) -/
+theorem edits_keep_shape (tr : Traj) (es : List TrajEdit) :
+    (tr.edits es).ns = tr.ns ∧ (tr.edits es).nc = tr.nc ∧ (tr.edits es).tu = tr.tu := by
+  induction es generalizing tr with
+  | nil => exact ⟨rfl, rfl, rfl⟩
+  | cons e es ih =>
+    have h := ih (tr.edit e)
+    cases e <;> simpa [Traj.edits, Traj.edit, Traj.setData, Traj.setTimes, Traj.setDataUnits] using h
+
+/-- the last data edit of a history wins -/
+theorem edits_last_data (tr : Traj) (es : List TrajEdit) (d : List Rat) :
+    (tr.edits (es ++ [.data d])).data = d := by
+  simp [Traj.edits, Traj.edit, Traj.setData]
+
+example : ({ ns := 2, nc := 2, ts := [0, 1], tu := default, data := [1, 2, 3, 4, 5, 6, 7, 8], du := default : Traj}.setData
+    [11, 12, 13, 14, 15, 16, 17, 18]).point 1 1 0 = .ok 17 := by decide +kernel
+
 /-- the whole-state accessor returns the sample's contiguous block -/
 theorem whole_state_block (tr : Traj) (hw : tr.wf) (k : Nat) (hk : k < tr.nsamples) :
     tr.wholeState k = .ok ((tr.data.drop (k * (tr.ns * tr.nc))).take (tr.ns * tr.nc)) := wholeState_eq tr hw k hk
